@@ -60,7 +60,7 @@ mod ctl {
         pub clean: bool,
     }
 
-    fn qevent(exec: &Execution, ph: u32, r: &RunResult) {
+    fn qevent(exec: &Execution, ph: i32, r: &RunResult, nconn: usize) {
         let snap = exec.snapshot();
         let res = match r {
             RunResult::Idle => "idle",
@@ -77,12 +77,28 @@ mod ctl {
             .filter(|t| t.kind == Kind::Env && !t.finished)
             .map(|t| format!("[{},{}]", run::js(&t.name), run::js(t.blocked_on)))
             .collect();
+        let cs: Vec<String> = {
+            let reg = run::REGISTRY.lock().unwrap();
+            (0..nconn)
+                .map(|c| reg.iter().find(|(k, _)| *k == c).map(|(_, cl)| cl.consumed()).unwrap_or(-1).to_string())
+                .collect()
+        };
+        if ph < 0 {
+            exec.log(format!(
+                "\"ev\":\"Probe\",\"k\":{},\"lib\":{},\"libtimed\":{}",
+                -ph,
+                lib_live,
+                lib_timed
+            ));
+            return;
+        }
         exec.log(format!(
-            "\"ev\":\"Quiescent\",\"ph\":{},\"res\":{},\"lib\":{},\"libtimed\":{},\"env\":[{}]",
+            "\"ev\":\"Quiescent\",\"ph\":{},\"res\":{},\"lib\":{},\"libtimed\":{},\"cs\":[{}],\"env\":[{}]",
             ph,
             run::js(res),
             lib_live,
             lib_timed,
+            cs.join(","),
             env.join(",")
         ));
     }
@@ -92,22 +108,35 @@ mod ctl {
         exec.log(scenario_event(sc));
         let sc2 = sc.clone();
         exec.spawn_env("main", move || run::env_main(sc2));
+        run::REGISTRY.lock().unwrap().clear();
         let real = Duration::from_secs(30);
         let mut h = sc.horizon_ns;
         let mut bad = false;
-        for ph in 0..4u32 {
+        let nconn = sc.conns.len();
+        for (k, t) in sc.probes_ns.iter().enumerate() {
+            let r = exec.run_until(*t, real);
+            qevent(&exec, -(k as i32 + 1), &r, nconn);
+            if !matches!(r, RunResult::Idle) {
+                bad = true;
+            }
+        }
+        for ph in 0..4i32 {
+            if bad {
+                break;
+            }
             if ph > 0 {
                 exec.set_phase(ph as u64);
                 h += if ph == 3 { 60_000_000_000 } else { 1_000_000_000 };
             }
             let r = exec.run_until(h, real);
-            qevent(&exec, ph, &r);
+            qevent(&exec, ph, &r, nconn);
             if !matches!(r, RunResult::Idle) {
                 bad = true;
                 break;
             }
         }
         let snap = exec.snapshot();
+        run::REGISTRY.lock().unwrap().clear();
         let leaked: Vec<String> = snap.iter().filter(|t| !t.finished).map(|t| run::js(&t.name)).collect();
         let clean = leaked.is_empty() && !bad;
         exec.log(format!(
@@ -316,7 +345,7 @@ mod ctl {
             }
             let ok = settle(q, 60_000);
             world::log(format!(
-                "\"ev\":\"Quiescent\",\"ph\":{},\"res\":{},\"lib\":{},\"libtimed\":0,\"env\":[]",
+                "\"ev\":\"Quiescent\",\"ph\":{},\"res\":{},\"lib\":{},\"libtimed\":0,\"cs\":[],\"env\":[]",
                 ph,
                 run::js(if ok { "settled" } else { "busy" }),
                 threads_now() as i64 - base_threads as i64
